@@ -778,12 +778,18 @@ def text_parts(t):
 
 
 def unmap(t):
-    """elem(map(f, X))  ->  f(elem(X))   (f a named function)"""
+    """elem(map(f, X))  ->  f(elem(X))   (f a named function); the same for
+    the comprehension spelling of the map"""
     def f(x):
         if x[0] == "elem" and isinstance(x[1], tuple) and x[1] and \
                 x[1][0] == "call" and x[1][1] == "builtins.map" and \
                 len(x[1][2]) == 2 and x[1][2][0][0] in ("name", "free"):
             return ("call", x[1][2][0][1], (("elem", x[1][2][1]),), ())
+        # the element of [f(y) for y in X] / (f(y) for y in X) is f(elem(X))
+        if x[0] == "elem" and isinstance(x[1], tuple) and x[1] and \
+                x[1][0] == "comp" and x[1][1] in ("list", "gen") and \
+                len(x[1][3]) == 1 and not x[1][3][0][2]:
+            return x[1][2]
         return x
     return map_term(t, f)
 
@@ -816,20 +822,28 @@ def seq_concat(t):
     return out
 
 def merge_fstr(t):
-    """f-strings with adjacent constant pieces merged (f"*.{'x'}." ->
-    '*.x.'), so literal file-name patterns can be read off"""
+    """Strings built from pieces - f-strings, +, "%s" %, "{}".format, join -
+    as one f-string term with adjacent constant pieces merged
+    (f"*.{'x'}." -> '*.x.'; "*.{}.".format('x') -> '*.x.'), so literal
+    file-name patterns can be read off"""
+    def is_text(x):
+        return (x[0] == "const" and isinstance(x[1], str)) or x[0] == "fstr"
+
     def f(x):
-        if x[0] == "fstr":
-            out = []
-            for y in x[1]:
-                if out and y[0] == "const" and out[-1][0] == "const" and \
-                        isinstance(y[1], str) and isinstance(out[-1][1],
-                                                             str):
-                    out[-1] = ("const", out[-1][1] + y[1])
-                else:
-                    out.append(y)
-            return ("fstr", tuple(out))
-        return x
+        built = x[0] == "fstr" or (
+            x[0] == "mcall" and x[2] in ("format", "join")
+            and x[1][0] == "const" and isinstance(x[1][1], str)) or (
+            x[0] == "bin" and x[1] == "%" and is_text(x[2])) or (
+            x[0] == "bin" and x[1] == "+" and (is_text(x[2])
+                                               or is_text(x[3])))
+        if not built:
+            return x
+        parts = text_parts(x)
+        if parts == [x]:
+            return x
+        if len(parts) == 1 and parts[0][0] == "const":
+            return parts[0]
+        return ("fstr", tuple(parts))
     return map_term(t, f)
 
 
@@ -1148,3 +1162,12 @@ def align_positions(t):
         return POS
     return tuple(align_positions(x) if isinstance(x, tuple) else x
                  for x in t)
+
+
+def data_elem(it):
+    """The data element a ``for`` loop over iterable term ``it`` visits:
+    ``elem(it)``, looking through ``enumerate(x, start)`` (the counter is not
+    data)."""
+    while it[0] == "call" and it[1] == "builtins.enumerate" and it[2]:
+        it = it[2][0]
+    return ("elem", it)
